@@ -4,3 +4,5 @@ import SnowModel.OpCond
 import SnowModel.Ops.OpCond
 import SnowModel.Simpson
 import SnowModel.Ops.Simpson
+import SnowModel.Seeds
+import SnowModel.Ops.Seeds
